@@ -32,7 +32,7 @@ def explain(path):
                 for so in op[3]:
                     out.append("      s.%s" % {"call": "__call__(%s)", "invert": "invert(%s)", "domain": "domain()%s",
                                                 "nice": "nice(%s)", "ticks": "ticks(%s) + tickFormat + positions",
-                                                "copy": "copy()%s", "nice_iv": "nice(d3_time[%r], skip)"}[so[0]]
+                                                "copy": "copy()%s", "nice_iv": "nice(d3_time[%r], skip)", "clamp": "clamp(%s)"}[so[0]]
                                % (so[1] if len(so) > 1 else ""))
             elif op[0] == "timeline":
                 out.append("%2d: Timeline%s(%d items, options=%s).export()" % (i, op[1].upper(), len(op[2]), _opts(op[3])))
@@ -75,6 +75,8 @@ def explain(path):
                     i, op[1], op[4] if len(op) > 4 else "SimAbort", op[2] / 10000.0, op[3] if len(op) > 3 else "any"))
             elif k == "stack_compute":
                 out.append("%2d: engine[%d].compute()   # FAULT: recursion limit = depth + %d" % (i, op[1], op[2]))
+            elif k == "inspect":
+                out.append("%2d: read-only inspection of engine[%d] (getLayers, metrics, node paths, clone, repr)" % (i, op[1]))
             elif k == "stale":
                 out.append("%2d: plant stale %s on the labels of set %d" % (i, op[2], op[1]))
             elif k == "distribute":
